@@ -178,6 +178,14 @@ func GenRun(t *rapid.T, label string) []model.Point {
 	fd := Fields[rapid.IntRange(0, len(Fields)-1).Draw(t, label+".fd")]
 	start := rapid.Int64Range(-20, 60).Draw(t, label+".start")
 	step := rapid.Int64Range(1, 3).Draw(t, label+".step")
+	if rapid.IntRange(0, 2).Draw(t, label+".scaled") == 0 {
+		// regular intervals from nanoseconds to hours: the timestamp codec
+		// divides the deltas by the largest power of ten they share
+		step = rapid.SampledFrom([]int64{1, 2, 5}).Draw(t, label+".mant")
+		for e := rapid.IntRange(0, 13).Draw(t, label+".exp"); e > 0; e-- {
+			step *= 10
+		}
+	}
 	n := rapid.IntRange(2, 2100).Draw(t, label+".n")
 	shape := rapid.IntRange(0, 3).Draw(t, label+".shape")
 	seed := rapid.Int64Range(-50, 50).Draw(t, label+".seed")
